@@ -6,6 +6,7 @@ ENVIRONMENTS that differ only in nondeterminism the simulator owns:
   E1 perturbed wall clock / perf counter (slow, fast, jumps forward and back, skew, stall), wall clock far from ctx.now
   E2 another PYTHONHASHSEED in a separate interpreter (fresh on its first job, warm afterwards)
   E3 re-run in this (warm) interpreter
+  E4 (configs with stage thread pools) two different seeded schedules of the worker threads
 Oracle: utterances, canonical logs and snapshot bodies are byte-identical.
 """
 from __future__ import annotations
@@ -23,6 +24,7 @@ from vsim.child import Child, ChildError  # noqa: E402
 from vsim.clock import SimClock  # noqa: E402
 from vsim.rng import Rng  # noqa: E402
 from vsim.scratch import Scratch  # noqa: E402
+from vsim.sched import ParallelSeams  # noqa: E402
 
 PROPERTY = "C01"
 LEVEL = "exploration"
@@ -69,6 +71,18 @@ def generate(seed: int, tier: str) -> Dict[str, Any]:
     for sec, key in (("t1", "ttl_s"), ("t2", "ttl_s")):
         raw.setdefault(sec, {}).setdefault("cache", {}).setdefault(key, 10_000_000)
     raw.setdefault("t4", {}).setdefault("cache", {}).setdefault("ttl_sec", 10_000_000)
+    if r.chance(0.2):
+        # stage-level thread pools (E4: schedule axis).  Caches stay large enough never to evict: schedule-dependent
+        # eviction counters of tiny shared caches are C09's recorded finding, not re-reported here.
+        raw.setdefault("perf", {}).setdefault("parallel", {}).update({"enabled": True, "t1": True, "t2": True, "max_workers": r.choice([2, 3, 8])})
+        for sec in ("t1", "t2"):
+            c = raw.setdefault(sec, {}).setdefault("cache", {})
+            if c.get("max_entries") in (0, 1, 2):
+                c["max_entries"] = 512
+        pc = raw.get("perf", {})
+        for sec in ("t1", "t2"):
+            if isinstance(pc.get(sec), dict):
+                pc[sec].pop("cache", None)
     if r.chance(0.25):
         raw["scheduler"] = {"enabled": True, "quantum_ms": 1_000_000_000, "policy": r.choice(["round_robin", "fair_queue"]),
                             "budgets": {"wall_ms": 2_000_000_000, "t1_pops": r.choice([None, 0, 1, 3]), "t1_iters": r.choice([0, 1, 50]),
@@ -89,12 +103,22 @@ def run_env(program: Dict[str, Any], env: str) -> Dict[str, Any]:
                          wall0_s=1_700_000_000.0 + 86400.0 * float(program.get("wall_offset_days", 0)))
     else:
         clock = SimClock(None, "steady")
+    par = bool(((program["cfg"].get("perf") or {}).get("parallel") or {}).get("enabled"))
+    sched_digest = None
     with Scratch() as root:
         with E.EngineEnv(root, clock) as ee:
             run = E.EngineRun(program["world"], program["cfg"], ee)
             nontrivial = False
-            for op in program["ops"]:
-                run.step(op)
+            if par:
+                # E4 uses a seeded schedule of the worker threads, every other environment the FIFO schedule
+                seams = ParallelSeams(Rng(int(program["clock_seed"]) + (7 if env == "E4b" else 0)).stream("sched") if env.startswith("E4") else None)
+                with seams as sched:
+                    for op in program["ops"]:
+                        run.step(op)
+                    sched_digest = sched.digest() if sched.steps else None
+            else:
+                for op in program["ops"]:
+                    run.step(op)
             art = run.artefacts()
             fired = dict(clock.fired)
             reads = clock.reads
@@ -121,7 +145,7 @@ def run_env(program: Dict[str, Any], env: str) -> Dict[str, Any]:
     t1 = art["logs"].get("t1.jsonl", "")
     nontrivial = ('"k_returned": 0' not in t2 and bool(t2)) or ('"pops": 0' not in t1 and bool(t1))
     out["_meta"] = {"clock_fired": fired, "clock_reads": reads, "sim_s": clock.sim_seconds(), "nontrivial": bool(nontrivial),
-                    "turns": len(art["lines"]), "streams": sorted(art["logs"])}
+                    "turns": len(art["lines"]), "streams": sorted(art["logs"]), "sched": sched_digest}
     return out
 
 
@@ -165,6 +189,9 @@ def execute(program: Dict[str, Any]) -> Dict[str, Any]:
     envs = {}
     envs["clock:" + program.get("profile", "slow")] = run_env(program, "E1")
     envs["warm-rerun"] = run_env(program, "E0")
+    if bool(((program["cfg"].get("perf") or {}).get("parallel") or {}).get("enabled")):
+        envs["sched:a"] = run_env(program, "E4")
+        envs["sched:b"] = run_env(program, "E4b")
     hs = str(program.get("hashseed", "1"))
     child = _CHILDREN.get(hs)
     if child is None:
@@ -196,4 +223,5 @@ def execute(program: Dict[str, Any]) -> Dict[str, Any]:
         stats["stream_" + s] = stats.get("stream_" + s, 0) + 1
     return {"violations": violations, "stats": stats, "faults": faults, "nontrivial": meta["nontrivial"],
             "key": E.jdigest([program["world"], program["cfg"], program["ops"]]),
-            "sim_s": sum(a["_meta"]["sim_s"] for a in envs.values()), "log": E.jdigest(base)}
+            "sim_s": sum(a["_meta"]["sim_s"] for a in envs.values()), "log": E.jdigest(base),
+            "sched": "+".join(str(a["_meta"].get("sched")) for n, a in envs.items() if n.startswith("sched") and a["_meta"].get("sched")) or None}
